@@ -28,7 +28,7 @@ thread_local! {
     static ROWS: RefCell<HashMap<i64, (i64, RwSignal<i64>, StoredValue<i64>)>> = RefCell::new(HashMap::new());
 }
 
-fn tick() {
+pub fn tick() {
     for _ in 0..8 {
         Executor::poll_local();
     }
@@ -49,7 +49,7 @@ fn row_state(k: i64) -> (i64, RwSignal<i64>) {
     (g, count)
 }
 
-fn visible(parent: &Node, before: &[u64], enumerate: bool) -> (Sexp, Vec<u64>) {
+pub fn visible(parent: &Node, before: &[u64], enumerate: bool) -> (Sexp, Vec<u64>) {
     let mut out = vec![];
     let mut ids = vec![];
     for n in parent.children() {
@@ -157,7 +157,7 @@ pub fn run(c: &Sexp) -> Sexp {
 }
 
 /// erase the state type of the two `UnmountHandle`s
-trait AnyHandle {
+pub trait AnyHandle {
     fn into_any_handle(self) -> Box<dyn std::any::Any>;
 }
 impl<M: leptos::tachys::view::Mountable + 'static> AnyHandle for leptos::mount::UnmountHandle<M> {
